@@ -6,9 +6,11 @@ package main
 
 import (
 	"bufio"
+	"bytes"
 	"fmt"
 	"os"
 	"strconv"
+	"sync"
 
 	"verifharness/gen"
 	"verifharness/prng"
@@ -37,6 +39,43 @@ func main() {
 				os.Exit(2)
 			}
 			fmt.Fprintln(w, c.String())
+		}
+	case "conc":
+		// every case in its own goroutine (creation/parsing and stepping interleave); output in input order
+		workers := 8
+		if len(os.Args) > 2 {
+			workers, _ = strconv.Atoi(os.Args[2])
+		}
+		sc := bufio.NewScanner(os.Stdin)
+		sc.Buffer(make([]byte, 1<<20), 1<<28)
+		var lines []string
+		for sc.Scan() {
+			if sc.Text() != "" {
+				lines = append(lines, sc.Text())
+			}
+		}
+		results := make([]bytes.Buffer, len(lines))
+		sem := make(chan struct{}, workers)
+		var wg sync.WaitGroup
+		for i := range lines {
+			wg.Add(1)
+			sem <- struct{}{}
+			go func(i int) {
+				defer wg.Done()
+				defer func() { <-sem }()
+				c, err := sexp.Parse(lines[i])
+				if err != nil || c.Head() != "case" || len(c.List) < 3 {
+					return
+				}
+				bw := bufio.NewWriter(&results[i])
+				out := &streams.Out{W: bw, ID: c.List[2].Atom}
+				streams.Dispatch(c.List[1].Atom, c, out)
+				bw.Flush()
+			}(i)
+		}
+		wg.Wait()
+		for i := range results {
+			w.Write(results[i].Bytes())
 		}
 	case "run":
 		sc := bufio.NewScanner(os.Stdin)
